@@ -85,6 +85,9 @@ def seed_batch(item: tuple) -> dict:
                 t = dict(s)
                 t["cache_dir"] = f"cache-{fmt}-{seed}"
                 t["fmt"] = fmt
+                if t.get("fine_grained_cache"):
+                    t["overrides"] = dict(t.get("overrides") or {}, cache_fine_grained=True)
+                t.pop("fine_grained_cache", None)
                 t["store"] = "fs"
                 t.pop("pid", None)
                 if "python_version" in t.get("overrides", {}):
@@ -150,7 +153,7 @@ def order_item(item: tuple) -> dict:
     spec = materialize_universe(root, uname, vm)
     mods = []
     for p, v in sorted(vm.items()):
-        if u.files[p][v] is None:
+        if u.files[p][v] is None or p in UNLISTED.get(uname, ()):
             continue
         m = p[len("tmp/"):].rsplit(".", 1)[0].replace("/", ".")
         if m.endswith(".__init__"):
@@ -202,7 +205,33 @@ BUILD_ALPHABET = [
     ("U6:missing", "U6", None, {}), ("U4:ns", "U4", {"tmp/p/__init__.py": 1}, {}),
     ("U1:strict", "U1", {"tmp/a.py": 1}, {"disallow_untyped_defs": True, "warn_unreachable": True, "strict_equality": True}),
     ("U9:daemon", "U9", {"tmp/a.py": 1}, {"__daemon__": True}),
+    # builds whose diagnostics depend on per-version data that mypy memoises in module-level state
+    ("V:310", "VMISS", None, {"python_version": (3, 10)}),
+    ("V:312", "VMISS", None, {"python_version": (3, 12)}),
+    ("V:314w", "VMISS", None, {"python_version": (3, 14), "platform": "win32"}),
 ]
+
+UPKG = universes.Universe(  # package with submodules, every file listed, follow_imports=error
+    name="UPKG-pkg-followerror",
+    files={"tmp/pkg/__init__.py": ["", "v: int = ''\n"], "tmp/pkg/a.py": ["import pkg.b\nx: int = pkg.b.y\n"],
+           "tmp/pkg/b.py": ["y: str = ''\n", None], "tmp/m.py": ["import pkg.a\n"]},
+    sources=[[("tmp/m.py", "m")]],
+    overrides={"follow_imports": "error"},
+)
+universes.ALL["UPKG"] = UPKG
+UPKG2 = universes.Universe(  # same, but the ancestor package's __init__ exists and is NOT on the command line
+    name="UPKG2-ancestor-unlisted", files=dict(UPKG.files), sources=UPKG.sources, overrides=dict(UPKG.overrides))
+universes.ALL["UPKG2"] = UPKG2
+UNLISTED = {"UPKG2": {"tmp/pkg/__init__.py"}}
+
+VMISS = universes.Universe(
+    name="VMISS-misspelled-stdlib",
+    fixture="tuple.pyi",
+    files={"tmp/a.py": ["import tomlib\nimport distutil\nimport asynchat2\nimport sys\n"
+                        "if sys.version_info >= (3, 12):\n    x: int = ''\nif sys.platform == 'win32':\n    y: int = ''\n"]},
+    sources=[[("tmp/a.py", "a")]],
+)
+universes.ALL["VMISS"] = VMISS
 
 
 def _materialize_alpha(base: str) -> dict[str, dict]:
@@ -318,6 +347,32 @@ def run(ctx: Ctx) -> Result:
             sp = materialize_universe(root, uname, vm)
             sp["pid"] = sid
             progs.append(sp)
+    # option values that are sets/lists inside mypy (error-code sets, always_true/false, per-module sections): their
+    # iteration order must never reach the output or the cache records
+    SETTY = [
+        {"enable_error_code": ["truthy-bool", "redundant-expr", "possibly-undefined", "ignore-without-code"],
+         "disable_error_code": ["attr-defined", "operator", "return-value"]},
+        {"always_true": ["ZZ", "AA", "MM", "BB"], "always_false": ["QQ", "CC", "XX"],
+         "enable_error_code": ["unused-awaitable", "mutable-override"]},
+    ]
+    for uname in ("U1", "U9"):
+        for oi, ov in enumerate(SETTY):
+            for sid, vm in universe_states(uname)[:: (4 if ctx.quick else 1)]:
+                root = os.path.join(base, "o", f"{oi}", sid.replace(":", "_").replace(",", ""))
+                sp = materialize_universe(root, uname, vm)
+                sp["overrides"] = dict(sp["overrides"], **ov)
+                sp["per_module"] = {"b": {"disable_error_code": ["misc", "assignment", "arg-type"]},
+                                    "a": {"enable_error_code": ["redundant-self", "explicit-override"]}}
+                sp["pid"] = f"{sid}+optset{oi}"
+                progs.append(sp)
+    # fine-grained dependency cache records (*.deps.json, written with --cache-fine-grained) are cache records too
+    for uname in ("U1", "U9", "U3"):
+        for sid, vm in universe_states(uname)[:: (8 if ctx.quick else 1)]:
+            root = os.path.join(base, "fg", sid.replace(":", "_").replace(",", ""))
+            sp = materialize_universe(root, uname, vm)
+            sp["fine_grained_cache"] = True
+            sp["pid"] = f"{sid}+deps-cache"
+            progs.append(sp)
     files = seeded_order(corpus.files_matching("check-*.test"), ctx.seed)
     n_cases = 64 if ctx.quick else 1500
     picked = []
@@ -359,6 +414,9 @@ def run(ctx: Ctx) -> Result:
             oitems.append((uname, sid, vm))
     if ctx.quick:
         oitems = [x for i, x in enumerate(oitems) if i % 2 == 0 or x[0] != "U1"]
+    for un in ("UPKG", "UPKG2"):
+        for sid, vm in universe_states(un):
+            oitems.append((un, sid, vm))
     for _i, it, st, val in pmap(order_item, oitems, fresh=False, timeout=3600):
         if st != "ok":
             herr.append(f"order item failed: {val}")
